@@ -4,12 +4,16 @@ Real side: instrumented `core.ports.Port` subclasses (scripted per-call latencie
 virtual timestamps, public `transform_and_write_value` override that logs every submission and what its submitter was
 told) driven on a virtual-time asyncio loop by timed scripts of API writes (`patch_port_value`), direct public
 `transform_and_write_value` calls, sequences (`set_sequence`), expression-driven writes (ports whose expression refers
-to other ports), attribute changes, `reset()`, enable/disable, explicit `core.main.update()` passes and the real
+to other ports), attribute changes - among them the port's own `transform_write`, set / changed / cleared (attribute
+setter or API `patch_port`) between and during same-instant submissions whose transform evaluation is suspended ("dyn"
+ports; observer functions C14T<k> registered with core.expressions log start and end of every transform evaluation) -,
+`reset()`, enable/disable, explicit `core.main.update()` passes and the real
 polling loop (`core.main.init()`), with a reduced `WRITE_VALUE_QUEUE_SIZE` (public class attribute) to reach overflow;
 a fraction of the cases loads a port with a persisted value while writes are already arriving (the direct `write_value`
 call of `load_from_data`).
 Model side: QtVerif.Model.PortIO via Driver/C14.lean, fed with the observed order of submissions / driver entries /
-driver exits; it must predict every value entering the driver, every drop and every ticket outcome.
+driver exits (dyn ports: calls, attribute changes, lock acquisitions and hand-overs of the submit stage `tstep`); it must
+predict every value entering the driver (hence which transform each call reads), every drop and every ticket outcome.
 Oracle (`harness/oracle_c14.py`): the property statement evaluated on the real trace, independent of the model.
 """
 import asyncio
@@ -19,9 +23,11 @@ import os
 
 from harness import vloop
 from harness.core import Failure, Prop
-from harness.oracle_c14 import TRANSFORMS, check_trace, port_cap, xform
+from harness.oracle_c14 import DYN_TRANSFORMS, LAZY_TRANSFORMS, TRANSFORMS, check_trace, port_cap, xform
 
 ORIGIN = contextvars.ContextVar('c14_origin', default=('expr', None))
+CUR_SUB = contextvars.ContextVar('c14_cur_sub', default=None)      # (Hx, sub dict, index) of the running public call
+TR_INDEX = {(t or ''): k for k, t in enumerate(TRANSFORMS)}
 LAT = [None, 0, 1, 7, 20, 50, 120]
 DRAIN_S = 90.0
 # C14_NO_LAZY=1: no lazy (value-dependent suspension) write transforms - what stays silent on a tree without
@@ -135,6 +141,13 @@ def make_port_classes(core_ports):
                 hx.win -= 1
                 hx.rec.ev('lwe' if direct else 'we', hx.idx, ok)
 
+        async def attr_set_transform_write(self, stransform_write):
+            # the attribute setter hook of a port driver: logs the instant at which the attribute really changes
+            await super().attr_set_transform_write(stransform_write)
+            k = TR_INDEX.get(stransform_write)
+            if k is not None:
+                self.hx.rec.ev('trset', self.hx.idx, k)
+
         async def transform_and_write_value(self, value):
             hx = self.hx
             i = len(hx.subs)
@@ -142,6 +155,7 @@ def make_port_classes(core_ports):
             sub = {'v': value, 'res': None, 'origin': origin, 'op': opid}
             hx.subs.append(sub)
             hx.rec.ev('sub', hx.idx, i, value)
+            CUR_SUB.set((hx, sub, i))
             suspended = []
             hx.rec.loop.call_soon(suspended.append, True)
             try:
@@ -167,6 +181,33 @@ def make_port_classes(core_ports):
     return IOPort, SrcPort
 
 
+def register_observers(functions_mod):
+    """C14T<k>(x): expression functions (registered like any other function of core.expressions) that evaluate x as
+    every function evaluates its arguments and log when the evaluation of write transform k starts and ends, and for
+    which submission (the public call running in the current task)."""
+    for k in DYN_TRANSFORMS:
+        if k == 0 or f'C14T{k}' in functions_mod.FUNCTIONS:
+            continue
+
+        class Obs(functions_mod.Function):
+            MIN_ARGS = MAX_ARGS = 1
+            K = k
+
+            async def _eval(self, context):
+                cur = CUR_SUB.get()
+                if cur is not None and cur[1]['res'] is not None:
+                    cur = None
+                if cur is not None:
+                    cur[0].rec.ev('tev', cur[0].idx, cur[2], self.K)
+                try:
+                    return (await self.eval_args(context))[0]
+                finally:
+                    if cur is not None:
+                        cur[0].rec.ev('tend', cur[0].idx, cur[2])
+
+        functions_mod.function(f'C14T{k}')(Obs)
+
+
 class C14(Prop):
     ID = 'C14'
     N_QUICK = 4000
@@ -179,16 +220,26 @@ class C14(Prop):
             'tick 10/50/200 ms, 12% of the cases load a port with a persisted value while writes arrive; 5/9 of the '
             'writable ports have a write transform (identity, MUL, ADD, lazy IF with unequal branches, IF failing for one '
             'value) and get null / failing / both-branch values in same-instant bursts from API, direct and sequence '
-            'submitters (order only: such ports keep the default capacity); a case is '
-            'non-trivial when at least two submissions of one port were pending together, a value was dropped, or a '
-            'write arrived during the load-time write; distinct = distinct per-port event-kind sequence')
+            'submitters (order only: such ports keep the default capacity); 20% of the cases are "dyn": the '
+            'transform_write attribute of port 0 (none / long-suspending / short / lazy transform) is set, changed and '
+            'cleared by attribute setter or API PATCH /ports/<id> inside same-instant groups of 2-7 API / direct / '
+            'sequence submissions, so that changes land before, during and after suspended evaluations and while calls '
+            'wait for the submit lock; a case is '
+            'non-trivial when at least two submissions of one port were pending together, a value was dropped, a '
+            'write arrived during the load-time write, or transform_write changed while a submission was pending; '
+            'distinct = distinct per-port event-kind sequence')
     CORRESPONDENCE = ('PortIO.step (submit/writerTake/writerAcquire/writeEnd/loadWrite*/readBegin/readEnd) <-> '
-                      'BasePort._write_value_queued / _write_value_loop / load_from_data / read_transformed_value')
+                      'BasePort._write_value_queued / _write_value_loop / load_from_data / read_transformed_value; '
+                      'PortIO.tstep (enter/acquire/pass/setTr) <-> BasePort.transform_and_write_value (submit lock, '
+                      'transform_write read when the lock is obtained) / attr_set_transform_write')
     TRUSTED = ['instrumented Port subclasses and the virtual-time event loop; asyncio runs code between awaits atomically',
                'the confirming main.update() after a write is a hidden step of the model (not compared)']
     ASSUMPTIONS = ['submission order = order of entry into the public transform_and_write_value (call order), also when a '
                    'write transform suspends the caller before the value is queued',
                    'a call whose write transform cannot be evaluated raises and is not a submission',
+                   'when transform_write changes while a value is pending, the value may be transformed by any '
+                   'transform in effect between its submission and its write (the property fixes the order, not the '
+                   'instant at which the attribute is read); the model pins it: the instant the call gets the submit lock',
                    '"told so" = the submitter\'s transform_and_write_value call raises asyncio.QueueFull '
                    '(API: a non-2xx answer)',
                    'an entry already taken by the writer task (waiting for the write lock) no longer counts as queued']
@@ -205,6 +256,8 @@ class C14(Prop):
         from qtoggleserver.core import api as core_api
         from qtoggleserver.core import expressions as core_expressions
         self.eval_error = (core_expressions.ExpressionEvalError,)
+        from qtoggleserver.core.expressions import functions as expr_functions
+        register_observers(expr_functions)
         from qtoggleserver.core.api.funcs import ports as api_ports
         from qtoggleserver import persist
         self.settings = settings
@@ -231,7 +284,9 @@ class C14(Prop):
 
     # ---------------------------------------------------------------- cases
     def corpus(self):
-        return [c for c in self._corpus() if not (NO_LAZY and any(pd['tr'] >= 4 for pd in c['ports']))]
+        return [c for c in self._corpus()
+                if not (NO_LAZY and (any(pd['tr'] in LAZY_TRANSFORMS for pd in c['ports'])
+                                     or any(o[1] == 'tr' and o[3] in LAZY_TRANSFORMS for o in c['ops'])))]
 
     def _corpus(self):
         reg = {'kind': 'reg', 'rlat': [1], 'wlat': [100], 'rfail': [0], 'wfail': [0], 'tr': 0, 'expr': None,
@@ -267,6 +322,17 @@ class C14(Prop):
             {'cap': 2, 'poll': False, 'tick': 50, 'ports': [dict(reg, wlat=[20], tr=2), dict(reg, wlat=[1, 20], tr=5)],
              'ops': [[0, 'w', 0, 5], [0, 'w', 0, None], [0, 'w', 0, 7], [1, 'api', 1, 104], [1, 'w', 1, 105],
                      [1, 'w', 1, None], [1, 'seq', 1, [106, 105, 107], [0, 0, 0], 1], [1, 'api', 1, 108]]},
+            # W3 (seeded change C14-r4-1: submit lock only taken when a transform is set): 5 is submitted under the x10
+            # transform and is being transformed when the attribute is cleared and 7 is submitted - 50 then 7
+            {'cap': 4, 'poll': False, 'tick': 50, 'ports': [dict(reg, wlat=[20], tr=6, dyn=True)],
+             'ops': [[0, 'w', 0, 105], [0, 'tr', 0, 0, 'attr'], [0, 'w', 0, 107]]},
+            # W3b: the same through the API (PATCH /ports/<id>, PATCH /ports/<id>/value), a waiting call that finds
+            # another transform when it gets the lock, the lazy transform set during an evaluation, a null value
+            {'cap': 4, 'poll': True, 'tick': 50, 'ports': [dict(reg, wlat=[7, 1], tr=7, dyn=True)],
+             'ops': [[0, 'api', 0, 105], [0, 'w', 0, 106], [0, 'tr', 0, 6, 'api'], [0, 'w', 0, 207], [0, 'tr', 0, 0, 'api'],
+                     [0, 'api', 0, 108], [1, 'tr', 0, 8, 'attr'], [1, 'w', 0, 109], [1, 'w', 0, None],
+                     [1, 'tr', 0, 0, 'attr'], [1, 'w', 0, 210], [1, 'seq', 0, [111, 212, 113], [0, 0, 0], 1],
+                     [2, 'tr', 0, 6, 'attr'], [2, 'api', 0, 114]]},
             # overflow: burst of 5 on cap 2 during a slow write: drop oldest, submitter told
             {'cap': 2, 'poll': True, 'tick': 50, 'ports': [dict(reg)],
              'ops': [[0, 'w', 0, 10], [1, 'api', 0, 11], [2, 'w', 0, 12], [3, 'api', 0, 13], [4, 'w', 0, 14]]},
@@ -287,10 +353,63 @@ class C14(Prop):
         case = self._gen(rng, tier)
         if NO_LAZY:
             for pd in case['ports']:
-                pd['tr'] = {4: 2, 5: 3}.get(pd['tr'], pd['tr'])
+                pd['tr'] = {4: 2, 5: 3, 8: 7}.get(pd['tr'], pd['tr'])
+            for o in case['ops']:
+                if o[1] == 'tr' and o[3] == 8:
+                    o[3] = 7
         return case
 
+    def _gen_dyn(self, rng, tier):
+        """Schedules in which the transform_write attribute of port 0 is set / changed / cleared (attribute setter or
+        API PATCH /ports/<id>) between and during same-instant submissions whose transform evaluation suspends for a
+        transform-dependent number of loop iterations."""
+        big = tier != 'quick'
+        ports = [{'kind': 'reg', 'rlat': [rng.choice(LAT) for _ in range(rng.randint(1, 2))],
+                  'wlat': [rng.choice([None, 0, 1, 7, 20, 50]) for _ in range(rng.randint(1, 3))],
+                  'rfail': [0], 'wfail': [1 if rng.random() < 0.1 else 0 for _ in range(rng.randint(1, 4))],
+                  'tr': rng.choice([0, 6, 6, 7, 8]), 'expr': None, 'persist': None, 'dyn': True}]
+        if rng.random() < 0.3:
+            ports.append({'kind': 'reg', 'rlat': [rng.choice(LAT)], 'wlat': [rng.choice(LAT)], 'rfail': [0],
+                          'wfail': [0], 'tr': rng.choice([0, 0, 2]), 'expr': None, 'persist': None})
+        ops = []
+        t = 0
+        val = [100]
+        seq_done = False
+        budget = 14                     # submissions of one group: stays below the live queue capacity (order only)
+
+        def nv():
+            val[0] += 1
+            return val[0] if rng.random() < 0.6 else val[0] + 100
+
+        for _ in range(rng.randint(1, 8 if big else 5)):
+            t += rng.choice([0, 1, 5, 30, 100, 100])
+            left = budget
+            for _ in range(rng.randint(2, 7)):
+                r = rng.random()
+                if r < 0.50 and left > 0:
+                    k = rng.choice(['w', 'w', 'api'])
+                    ops.append([t, k, 0, None if (k == 'w' and rng.random() < 0.1) else nv()])
+                    left -= 1
+                elif r < 0.86:
+                    ops.append([t, 'tr', 0, rng.choice([0, 0, 6, 7, 8]), rng.choice(['attr', 'attr', 'api'])])
+                elif r < 0.90 and not seq_done and left >= 3:
+                    seq_done = True     # one sequence per case: a second one would cancel a call in the stage
+                    m = rng.randint(2, 3)
+                    ops.append([t, 'seq', 0, [nv() for _ in range(m)], [rng.choice([0, 0, 1]) for _ in range(m)], 1])
+                    left -= m
+                elif r < 0.94:
+                    ops.append([t, 'upd'])
+                elif r < 0.97:
+                    ops.append([t, 'attr', 0])
+                elif len(ports) > 1:
+                    ops.append([t, rng.choice(['w', 'api']), 1, nv()])
+                t += rng.choice([0, 0, 0, 0, 0, 1])
+        return {'cap': rng.choice([2, 4, 0]), 'poll': rng.random() < 0.5, 'tick': rng.choice([50, 10, 200]),
+                'ports': ports, 'ops': ops}
+
     def _gen(self, rng, tier):
+        if rng.random() < 0.2:
+            return self._gen_dyn(rng, tier)
         big = tier != 'quick'
         cap = rng.choice([1, 2, 2, 3, 4, 4, 4, 16, 0])          # 0 = the live default class attribute
         nports = rng.choice([1, 1, 2, 2, 3, 4 if big else 3])
@@ -486,6 +605,12 @@ class C14(Prop):
                     await port.set_sequence(list(op[3]), list(op[4]), op[5])
             elif kind == 'attr':
                 await port.set_attr('display_name', f'n{len(rec.events)}')
+            elif kind == 'tr':
+                text = TRANSFORMS[op[3]] or ''
+                if op[4] == 'api':
+                    await self.api_ports.patch_port(FakeHandler(), ids[op[2]], {'transform_write': text})
+                else:
+                    await port.set_attr('transform_write', text)
             elif kind == 'reset':
                 await port.reset()
             elif kind == 'dis':
@@ -589,7 +714,7 @@ class C14(Prop):
         ev2 = []
         nrefused = sum(len(x) for x in snap) - sum(len(x) for x in subs)
         for ev in events:
-            if ev[1] == 'sub':
+            if ev[1] in ('sub', 'tev', 'tend'):
                 if ev[3] not in remap[ev[2]]:
                     continue
                 ev = ev[:3] + [remap[ev[2]][ev[3]]] + ev[4:]
@@ -601,6 +726,14 @@ class C14(Prop):
     # ---------------------------------------------------------------- model run
     def _model(self, case, driver, events, subs):
         """Feed the model with the observed order; returns (mismatch-or-None, model outcomes per port)."""
+        if not getattr(self, 'xf_checked', False):
+            # the transform table of the driver (xfTable) is the one of the harness (oracle_c14.xform)
+            for k in range(len(TRANSFORMS)):
+                for v in (101, 105, 150, 151, 207, 399, None):
+                    want = xform(k, v)
+                    r = driver.ask(f'xf {k} {MODEL_NONE if v is None else v}')
+                    assert r == f'ok {MODEL_NONE if want is None else want}', (k, v, r)
+            self.xf_checked = True
         driver.ask('begin')
         n = len(case['ports'])
         for j in range(n):
@@ -618,9 +751,97 @@ class C14(Prop):
             if mism is None:
                 mism = msg
 
+        # "dyn" ports (transform_write changes during the scenario) run the stage system of the model: enter / acquire
+        # / pass / settr. Observed on the real code: the call (sub), the attribute change (trset), the start (tev: the
+        # call has the submit lock and has read transform k) and the end (tend: the value is queued next) of a
+        # transform evaluation. A call that got the lock while no transform was set queues its value in the same
+        # atomic stretch and leaves no event of its own: the model takes that step at the first moment the call is at
+        # the head of the stage and the model's attribute is 'not set' (kobs tells which calls evaluated nothing).
+        dyn = [bool(pd.get('dyn')) for pd in case['ports']]
+        kobs = [{} for _ in range(n)]
+        for ev in events:
+            if ev[1] == 'tev':
+                kobs[ev[2]][ev[3]] = ev[4]
+        stage = [[] for _ in range(n)]
+        acq = [False] * n
+        mtr = [0] * n
+        for j in range(n):
+            if dyn[j]:
+                mtr[j] = case['ports'][j]['tr']
+                assert driver.ask(f'settr {j} {mtr[j]}') == 'ok'
+
+        def do_pass(t, p):
+            i = stage[p].pop(0)
+            acq[p] = False
+            r = driver.ask(f'pass {p} ok')
+            if not r.startswith('ok ') or int(r.split()[1]) != i:
+                bad(f't={t} port {p}: submission #{i} queues its value but the model says {r}')
+
+        def progress(t, p):
+            while stage[p] and not acq[p] and stage[p][0] not in kobs[p] and mtr[p] == 0:
+                r = driver.ask(f'acquire {p}')
+                if r != f'ok {stage[p][0]} 0':
+                    bad(f't={t} port {p}: submission #{stage[p][0]} gets the submit lock, no transform is set, '
+                        f'but the model says {r}')
+                    return
+                acq[p] = True
+                do_pass(t, p)
+
         for ev in events:
             t, kind, p = ev[0], ev[1], (ev[2] if len(ev) > 2 else None)
-            if kind == 'sub':
+            if kind == 'sub' and dyn[p]:
+                i, v = ev[3], ev[4]
+                x = MODEL_NONE if v is None else v
+                if x != int(x):
+                    bad(f't={t} port {p}: non-integral value {x} cannot be handed to the model')
+                    continue
+                r = driver.ask(f'enter {p} {int(x)}')
+                if not r.startswith('ok ') or int(r.split()[1]) != i:
+                    bad(f't={t} port {p} submission #{i}: model says {r}')
+                    continue
+                was_empty = not stage[p]
+                stage[p].append(i)
+                k = r.split()[2]
+                if k != '-':
+                    acq[p] = True
+                    if int(k) != kobs[p].get(i, 0):
+                        bad(f't={t} port {p}: submission #{i} found the submit lock free: the model reads transform '
+                            f'{k}, the real code evaluated transform {kobs[p].get(i, 0)} (0 = none)')
+                    elif int(k) == 0:
+                        do_pass(t, p)
+                        progress(t, p)
+                elif was_empty:
+                    bad(f't={t} port {p}: model stage was empty but the call did not get the lock: {r}')
+            elif kind == 'trset':
+                if driver.ask(f'settr {p} {ev[3]}') != 'ok':
+                    bad(f't={t} port {p}: settr refused by the model')
+                mtr[p] = ev[3]
+                if dyn[p]:
+                    progress(t, p)
+            elif kind == 'tev':
+                i, k = ev[3], ev[4]
+                if not dyn[p]:
+                    continue
+                if not stage[p] or stage[p][0] != i:
+                    bad(f't={t} port {p}: submission #{i} evaluates its write transform (has the submit lock) but in '
+                        f'the model the head of the submit stage is {stage[p][:1]}')
+                elif not acq[p]:
+                    r = driver.ask(f'acquire {p}')
+                    acq[p] = True
+                    if r != f'ok {i} {k}':
+                        bad(f't={t} port {p}: submission #{i} got the submit lock and evaluates transform {k}, '
+                            f'model says {r}')
+            elif kind == 'tend':
+                i = ev[3]
+                if not dyn[p]:
+                    continue
+                if stage[p] and stage[p][0] == i and acq[p]:
+                    do_pass(t, p)
+                    progress(t, p)
+                else:
+                    bad(f't={t} port {p}: submission #{i} ended its transform evaluation but the model stage is '
+                        f'{stage[p]} (head holds the lock: {acq[p]})')
+            elif kind == 'sub':
                 i, v = ev[3], ev[4]
                 x = xform(case['ports'][p]['tr'], v)
                 x = MODEL_NONE if x is None else x
